@@ -143,14 +143,14 @@ func (s *scte35) parseTable(data []byte) error {
 		}
 		// parse descriptors
 		descriptorLoopLength := binary.BigEndian.Uint16(buf.Next(2))
-		if buf.Len() < int(descriptorLoopLength+psi.CrcLen) {
+		if buf.Len() < int(descriptorLoopLength)+int(psi.CrcLen) {
 			return gots.ErrInvalidSCTE35Length
 		}
 		for bytesRead := uint16(0); bytesRead < descriptorLoopLength; {
 			descTag := readByte()
 			descLen := readByte()
 			// Make sure a bad descriptorLen doesn't kill us
-			if descriptorLoopLength-bytesRead-2 < uint16(descLen) {
+			if int(descriptorLoopLength)-int(bytesRead)-2 < int(descLen) {
 				return gots.ErrInvalidSCTE35Length
 			}
 			if descTag != segDescTag {
